@@ -17,6 +17,7 @@ import (
 	"github.com/brutella/hc/hap"
 	"math/rand"
 	"strings"
+	"sync"
 
 	"github.com/brutella/hc/accessory"
 	"github.com/brutella/hc/crypto"
@@ -609,11 +610,23 @@ func c01EventLeak(c *Ctx) {
 				return l
 			}
 			leaked := func(l []net.Conn) string {
-				buf := make([]byte, 4096)
+				msgs := make([]string, len(l))
+				var wg sync.WaitGroup
 				for k, cn := range l {
-					cn.SetReadDeadline(time.Now().Add(150 * time.Millisecond))
-					if n, _ := cn.Read(buf); n > 0 {
-						return fmt.Sprintf("unverified connection %d of %d received %d bytes: %q", k+1, len(l), n, trunc(string(buf[:n]), 120))
+					wg.Add(1)
+					go func(k int, cn net.Conn) {
+						defer wg.Done()
+						buf := make([]byte, 4096)
+						cn.SetReadDeadline(time.Now().Add(150 * time.Millisecond))
+						if n, _ := cn.Read(buf); n > 0 {
+							msgs[k] = fmt.Sprintf("unverified connection %d of %d received %d bytes: %q", k+1, len(l), n, trunc(string(buf[:n]), 120))
+						}
+					}(k, cn)
+				}
+				wg.Wait()
+				for _, m := range msgs {
+					if m != "" {
+						return m
 					}
 				}
 				return ""
@@ -637,14 +650,30 @@ func c01EventLeak(c *Ctx) {
 				c.Violate("a connection that never verified receives an event (a characteristic value, in plaintext) meant for a subscribed controller", id,
 					map[string]interface{}{"verified_subscribers": 1, "unverified_connections_open": nStr, "local_value_changes": 6}, "nothing", msg)
 			}
-			// phase 2: the subscriber goes away; connections opened afterwards
+			// phase 2: the subscribers go away; connections opened afterwards. Several subscribers
+			// and several rounds: whatever a closed connection leaves behind for the ones to come
+			// may be kept per processor, and a stranger has to be served by the same one
 			s1.Close()
-			time.Sleep(50 * time.Millisecond)
-			st2 := strangers(nStr + 8)
-			toggle(6)
-			if msg := leaked(append(st2, st1...)); msg != "" {
-				c.Violate("a connection that never verified receives an event after the subscribed controller has disconnected", id,
-					map[string]interface{}{"then": "subscriber disconnects; new connections; the value changes", "unverified_connections_open": len(st1) + len(st2)}, "nothing", msg)
+			var st2 []net.Conn
+			for round := 0; round < 3; round++ {
+				var subs []*refClient
+				for k := 0; k < 3; k++ {
+					if s := subscriber(); s != nil {
+						subs = append(subs, s)
+					}
+				}
+				for _, s := range subs {
+					s.Close()
+				}
+				time.Sleep(30 * time.Millisecond)
+				st := strangers(nStr + 16)
+				st2 = append(st2, st...)
+				toggle(6)
+				if msg := leaked(append(st, st1...)); msg != "" {
+					c.Violate("a connection that never verified receives an event after the subscribed controller has disconnected", id,
+						map[string]interface{}{"then": "subscribers disconnect; new connections; the value changes", "round": round + 1, "unverified_connections_open": len(st1) + len(st2)}, "nothing", msg)
+					break
+				}
 			}
 			for _, cn := range append(st1, st2...) {
 				cn.Close()
